@@ -122,7 +122,7 @@ struct ExecResult {
 }
 
 /// run the scenario once following `plan` (choice indices), defaulting to 0 beyond it
-fn execute<F: Fl>(n_nodes: usize, init: &AState, progs: &[Vec<Value>], plan: &[usize], writer_pref: bool) -> ExecResult
+fn execute<F: Fl>(n_nodes: usize, init: &AState, progs: &[Vec<Value>], plan: &[usize], writer_pref: bool, pre_bound: usize) -> ExecResult
 where
     F::Node: Send + Sync + 'static,
 {
@@ -171,6 +171,8 @@ where
     let mut grants = vec![];
     let mut deadlock = false;
     let mut step = 0usize;
+    let mut last: Option<usize> = None;
+    let mut preemptions = 0usize;
     loop {
         let mut g = sched.m.lock().unwrap_or_else(|e| e.into_inner());
         while g.state.iter().any(|s| *s == TState::Running) {
@@ -220,9 +222,26 @@ where
             sched.cv_threads.notify_all();
             break;
         }
-        let k = if step < plan.len() { plan[step].min(enabled.len() - 1) } else { 0 };
-        choices.push(enabled.len());
-        let t = enabled[k];
+        // preemption bounding: switching away from a thread that could continue costs one unit
+        let options: Vec<usize> = match last {
+            Some(lt) if enabled.contains(&lt) => {
+                let mut o = vec![lt];
+                if preemptions < pre_bound {
+                    o.extend(enabled.iter().cloned().filter(|x| *x != lt));
+                }
+                o
+            }
+            _ => enabled.clone(),
+        };
+        let k = if step < plan.len() { plan[step].min(options.len() - 1) } else { 0 };
+        choices.push(options.len());
+        let t = options[k];
+        if let Some(lt) = last {
+            if t != lt && enabled.contains(&lt) {
+                preemptions += 1;
+            }
+        }
+        last = Some(t);
         grants.push(t);
         g.granted[t] = true;
         g.state[t] = TState::Running;
@@ -261,6 +280,7 @@ where
     let out_path = opts.get("outcomes").expect("--outcomes");
     let max_exec: usize = opts.get("max-executions").map(|s| s.parse().unwrap()).unwrap_or(5000);
     let writer_pref = opts.get("writer-preference").map(|s| s != "false").unwrap_or(true);
+    let pre_bound: usize = opts.get("preemption-bound").map(|s| s.parse().unwrap()).unwrap_or(usize::MAX);
     let text = std::fs::read_to_string(path).expect("read scenarios");
     let mut of = std::io::BufWriter::new(std::fs::File::create(out_path).expect("create outcomes"));
     use std::io::Write;
@@ -275,7 +295,7 @@ where
         let mut plan: Vec<usize> = vec![];
         let mut execs = 0usize;
         loop {
-            let r = execute::<F>(init.n(), &init, &progs, &plan, writer_pref);
+            let r = execute::<F>(init.n(), &init, &progs, &plan, writer_pref, pre_bound);
             execs += 1;
             n_lock_events += r.lock_events;
             let key = r.outcome.to_string();
@@ -308,5 +328,6 @@ where
     }
     of.flush().unwrap();
     json!({"flavour": F::NAME, "scenarios": n_scen, "executions": n_exec, "lock_points": n_lock_events,
-           "scenarios_truncated": truncated, "max_schedules_in_one_scenario": max_sched, "writer_preference": writer_pref})
+           "scenarios_truncated": truncated, "max_schedules_in_one_scenario": max_sched, "writer_preference": writer_pref,
+           "preemption_bound": if pre_bound == usize::MAX { json!("none") } else { json!(pre_bound) }})
 }
